@@ -115,6 +115,34 @@ class Analyzer:
             self._cache[key] = _Pass(self, body).run()
         return self._cache[key]
 
+    def user_projection(self, key):
+        """A crate function that only hands out a reference into its first argument (a private helper such as
+        `fn slot_mut(&mut self, h) -> &mut Entry`): returns its returned place ('ref', root, path) in terms of its own
+        parameters, or None.  Straight-line, no stores outside locals, no loops, result a place under a parameter."""
+        if not hasattr(self, '_proj'):
+            self._proj = {}
+            self._proj_busy = set()
+        if key in self._proj:
+            return self._proj[key]
+        r = None
+        fn = self.facts.fns.get(key)
+        body = self.facts.body(key) if fn else None
+        if fn and body is not None and str(fn.get('output', '')).startswith('&') and fn.get('inputs') and \
+                str(fn['inputs'][0]).startswith('&') and key not in self._proj_busy and len(body.blocks) <= 12:
+            self._proj_busy.add(key)
+            try:
+                sm = self.summary(key)
+                if sm is not None and not sm.cfg.loops() and all(st.get('local') for st in sm.stores):
+                    v = sm.ret
+                    if isinstance(v, tuple) and v and v[0] == 'ref' and v[1][0] in ('p', 'h') and \
+                            not any(isinstance(x, tuple) and x and x[0] in ('call', 'after', 'unk', 'loop', 'var', 'ite') and
+                                    not (x[0] == 'call' and False) for x in walk(v)):
+                        r = v
+            finally:
+                self._proj_busy.discard(key)
+        self._proj[key] = r
+        return r
+
     # ------------------------------------------------------------------ constants
     def const_expr(self, k):
         ty = k.get('ty', '')
@@ -453,6 +481,52 @@ class _Pass:
         return ('unk', 'rv:' + k)
 
     # ------------------------------------------------------------------
+    def subst_projection(self, st, ref, args, term):
+        """the place returned by a user projection function, expressed in the caller's terms"""
+        ptrs = {}
+        vals = {}
+        for i, (a, o) in enumerate(zip(args, term['args'])):
+            n = i + 1
+            if a[0] in ('ref', 'param') and self.operand_ty(o).startswith('&'):
+                ptrs[n] = self.as_ptr(a)
+                vals[n] = a
+            elif a[0] == 'constref':
+                vals[n] = a
+            else:
+                vals[n] = a
+        ok = [True]
+
+        def sv(e):
+            if not isinstance(e, tuple) or not e:
+                return e
+            if e[0] == 'param':
+                if e[1] in vals:
+                    return vals[e[1]]
+                ok[0] = False
+                return e
+            if e[0] == 'mem' and isinstance(e[1], tuple) and e[1] and e[1][0] == 'p':
+                n = e[1][1]
+                if n in ptrs:
+                    return self.load(st, ptrs[n])
+                if n in vals and vals[n][0] == 'constref':
+                    return vals[n][1]
+                ok[0] = False
+                return e
+            return tuple(sv(x) if isinstance(x, tuple) else x for x in e)
+        root, path = ref[1], ref[2]
+        npath = tuple((el[0], sv(el[1])) if el[0] == 'i' else el for el in path)
+        if root[0] == 'p':
+            if root[1] not in ptrs:
+                return None
+            base = ptrs[root[1]]
+            out = ('ref', base[1], base[2] + npath)
+        elif root[0] == 'h':
+            out = ('ref', ('h', sv(root[1])), npath)
+        else:
+            return None
+        return out if ok[0] else None
+
+    # ------------------------------------------------------------------
     def transfer(self, bi, st):
         b = self.body.blocks[bi]
         for si, s in enumerate(b['stmts']):
@@ -505,6 +579,15 @@ class _Pass:
                     res = mk_constref(self.load(st, res))
             else:
                 proj = None
+            if not proj and callee and args and args[0][0] in ('ref', 'param') and callee in self.an.facts.fns:
+                up = self.an.user_projection(callee)
+                if up is not None:
+                    sub = self.subst_projection(st, up, args, t)
+                    if sub is not None:
+                        res = sub
+                        proj = 'user'
+                        if not str(self.an.facts.fns[callee].get('output', '')).startswith('&mut'):
+                            res = mk_constref(self.load(st, res))
             if callee == 'core::option::Option::<T>::take' and args and args[0][0] in ('ref', 'param') and not proj:
                 # take(): yields the old value and leaves None behind
                 r0 = self.as_ptr(args[0])
